@@ -539,18 +539,22 @@ class Subscription(BaseSubscription):
                 duration * 1000,
             ),
         )
-        if check_output:
-            context = {
-                "config": Config,
-                "client_id": self.client_id,
-                "auth_token": self.auth_token,
-            }
-            async for event in results:
-                if check_output(event, context):
+        try:
+            if check_output:
+                context = {
+                    "config": Config,
+                    "client_id": self.client_id,
+                    "auth_token": self.auth_token,
+                }
+                async for event in results:
+                    if check_output(event, context):
+                        await queue.put((sub_id, event))
+            else:
+                async for event in results:
                     await queue.put((sub_id, event))
-        else:
-            async for event in results:
-                await queue.put((sub_id, event))
+        except Exception:
+            # a failing output validator must not leave the REQ without its EOSE
+            self.log.exception("run_query")
         await queue.put((sub_id, None))
 
     def evaluate_filter(self, filter_obj, subwhere):
